@@ -561,3 +561,6 @@ mutant("M76-concat-assert-instead-of-raise", ["C17"], "ASSERT-1", (MANIP, "    i
 mutant("M76b-new-raise-assertion", ["C17"], "ASSERT-1", (MANIP, "    if not arrays:\n        raise ValueError(\"Need array(s) to stack\")", "    if not arrays:\n        raise AssertionError(\"Need array(s) to stack\")"))
 benign("B-new-elemwise-function", ["C01", "C16", "C19"], ("cubed/array_api/elementwise_functions.py", "def clip(", "def hypot2(x1, x2, /):\n    x1, x2 = _promote_scalars(x1, x2, \"hypot2\")\n    return elemwise(nxp.hypot, x1, x2, dtype=result_type(x1, x2))\n\n\ndef clip("))
 benign("B-unify-in-helper", ["C01", "C17"], (MANIP, "    chunkss, arrays = unify_chunks(*uc_args, warn=False)\n\n    # offsets along axis", "    chunkss, arrays = _unify_for_concat(uc_args)\n\n    # offsets along axis"), (MANIP, "def concat(", "def _unify_for_concat(uc_args):\n    return unify_chunks(*uc_args, warn=False)\n\n\ndef concat("))
+
+mutant("M16e-fuse-functions-swapped", ["C02"], "FUSE-PROV-1", (PBW, "        return pipeline2.config.function(pipeline1.config.function(*args))", "        return pipeline1.config.function(pipeline2.config.function(*args))"))
+mutant("M16f-fuse-key-order-swapped", ["C02"], "FUSE-PROV-1", (PBW, "        return pipeline1.config.back_key_function(\n            pipeline2.config.back_key_function(out_key).args[0]\n        )", "        return pipeline2.config.back_key_function(\n            pipeline1.config.back_key_function(out_key).args[0]\n        )"))
